@@ -12,11 +12,16 @@ correspondence(ctx): every primitive on generated valid encodings (boundary leng
   codecs on all 17 curves with the external functions (modular square root, scalar
   multiplication) recorded from the implementation's own run and supplied to the model
   as finite oracle tables.
-search(ctx): the property predicate on the real implementation: round trips through
-  every encoding, every truncation / extension / single-byte mutation must be rejected
-  with a documented error or (mutations only) yield a key; structural malformations
-  (elements deleted / emptied / shortened / duplicated); the bec2format plug-in round trip; and,
-  when an openssl binary exists, byte compatibility in both directions.
+search(ctx): the property predicate on the real implementation: the bytes of every encoding
+  against an independent DER / SEC1 encoder; round trips through every encoding; every
+  truncation and extension must be rejected with a documented error (UnexpectedDER,
+  MalformedPointError, ValueError and subclasses, UnknownCurveError); single-byte mutations
+  and structural malformations (elements deleted / emptied / shortened / duplicated) must give
+  a documented error or a VALID key; primitives accept only canonical DER; the bec2format
+  plug-in round trip; and, when an openssl binary exists (thorough tier), byte compatibility
+  in both directions.  Any other exception type is reported as
+  `undocumented-error:<Exception>:<decoder>` (before /repo commit 430b0b7 the removers leaked
+  IndexError; those inputs are kept as REGRESSIONS).
 """
 import base64
 import os
@@ -890,6 +895,16 @@ def spec_pem(der, label):
             b"-----END " + label + b"-----\n")
 
 
+def key_facts(k):
+    """public point (and secret exponent) of a key object, as decimal strings"""
+    vk = getattr(k, "verifying_key", k)
+    vk = getattr(vk, "public_key", vk)
+    out = {"public": [str(int(vk.pubkey.point.x())), str(int(vk.pubkey.point.y()))], "curve": vk.curve.name}
+    if hasattr(k, "privkey"):
+        out["secexp"] = str(int(k.privkey.secret_multiplier))
+    return out
+
+
 class Searcher:
     def __init__(self, ctx):
         self.ctx = ctx
@@ -918,6 +933,8 @@ class Searcher:
         self.ctx.case((decoder, data), trivial=(len(data) == 0))
         self.count("%s:%s" % (decoder, how.split(" ")[0]))
         info = {"decoder": decoder, "curve": curve, "input": data, "how": how}
+        if expect == "same":
+            info["expected"] = key_facts(same)
         try:
             res = f(data)
         except Exception as e:    # noqa
@@ -1035,8 +1052,12 @@ class Searcher:
 
     def roundtrip_and_bytes(self, c, kind, label, dec, f, enc, want, key):
         if enc != want:
+            sk = key if hasattr(key, "privkey") else getattr(self, "cur_sk", None)
             self.fail("encoding-bytes:%s" % label.split("/")[0],
-                      {"curve": c.name, "key": kind, "encoding": label, "got": enc, "expected": want},
+                      {"curve": c.name, "key": kind, "encoding": label, "got": enc, "expected": want,
+                       "secexp": str(int(sk.privkey.secret_multiplier)) if sk is not None else None,
+                       "public": [str(int(getattr(key, "verifying_key", key).pubkey.point.x())),
+                                  str(int(getattr(key, "verifying_key", key).pubkey.point.y()))]},
                       "%s of a %s key on %s differs from the independent DER/SEC1 encoder" % (label, kind, c.name))
         self.probe(dec, f, enc, "same", "roundtrip %s (%s key)" % (label, kind), c.name, same=key)
 
@@ -1191,6 +1212,7 @@ def search(ctx):
         keys = S.keys_for(c, 1 if quick else 3)
         for kind, sk in keys:
             ctx.dist["key:" + kind] += 1
+            S.cur_sk = sk
             encs = S.encodings_of(c, sk)
             for label, dec, f, enc, want, key in encs + S.pems_of(c, sk):
                 S.roundtrip_and_bytes(c, kind, label, dec, f, enc, want, key)
@@ -1410,6 +1432,32 @@ def replay(ctx, data):
         print(" detail:", f["detail"])
         dec = d.get("decoder")
         inp = d.get("input")
+        if f["kind"].startswith("encoding-bytes") and d.get("public"):
+            cur = [c for c in I.W if c.name == d.get("curve")][0]
+            x, y = int(d["public"][0]), int(d["public"][1])
+            pt = I.ec.PointJacobi(cur.curve, x, y, 1)
+            vk = K.VerifyingKey.from_public_point(pt, cur, validate_point=False)
+            sk = K.SigningKey.from_secret_exponent(int(d["secexp"]), cur) if d.get("secexp") else None
+            S = Searcher(ctx)
+            found = None
+            if sk is not None:
+                for label, _, _, enc, want, _ in S.encodings_of(cur, sk) + S.pems_of(cur, sk):
+                    if label == d["encoding"]:
+                        found = (enc, want)
+            else:
+                for pe in ("raw", "uncompressed", "compressed", "hybrid"):
+                    if d["encoding"] == "point/%s" % pe:
+                        found = (vk.to_string(pe), spec_point(cur, x, y, pe))
+            print(" curve:", cur.name, " encoding:", d["encoding"], " key:", d.get("key"))
+            if found is None:
+                print(" (cannot rebuild this encoding)")
+                rc = 1
+                continue
+            print(" implementation:", found[0].hex() if isinstance(found[0], bytes) else found[0])
+            print(" independent   :", found[1].hex() if isinstance(found[1], bytes) else found[1])
+            print(" reproduces:", found[0] != found[1])
+            rc |= found[0] != found[1]
+            continue
         if dec is None or inp is None:
             print(" (no decoder/input recorded: re-run `bin/check C19` for this kind)")
             rc = 1
@@ -1429,6 +1477,11 @@ def replay(ctx, data):
             res = fn(b)
             print(" implementation -> returned", repr(res)[:200])
             bad = f["kind"].split(":")[0].endswith("-accepted")
+            if f["kind"].startswith("roundtrip-differs") and d.get("expected"):
+                got = key_facts(res)
+                print(" decoded key :", got)
+                print(" encoded key :", d["expected"])
+                bad = got != d["expected"]
         except Exception as e:   # noqa
             print(" implementation -> %s: %s" % (type(e).__name__, str(e)[:200]))
             bad = not isinstance(e, I.documented) or f["kind"].startswith("roundtrip")
